@@ -251,8 +251,8 @@ def decode_coder(method: bytes, props, data: bytes, out_size: int, password=None
 
             if props is None or len(props) not in (3, 5):
                 raise RefError("ZStandard properties must be 3 or 5 bytes")
-            d = pyzstd.ZstdDecompressor()
-            return d.decompress(data)
+            # every frame of the stream (a writer may cut it into several, skippable ones included)
+            return pyzstd.decompress(data)
         if method == M_BROTLI:
             import brotli
 
@@ -332,6 +332,14 @@ def encode_coder(spec: dict, data: bytes, password=None, rng=None):
 
         level = spec.get("level", 3)
         props = bytes([1, 5, level]) + (b"\x00\x00" if spec.get("props5", True) else b"")
+        nfr = spec.get("frames", 1)
+        if nfr > 1:
+            # the stream cut into several frames, a skippable frame in front (what multithreaded writers make)
+            step = max(1, -(-len(data) // nfr))
+            out = b"\x50\x2a\x4d\x18" + struct.pack("<L", 4) + b"skip"
+            for i in range(0, max(len(data), 1), step):
+                out += pyzstd.compress(data[i : i + step], level)
+            return M_ZSTD, props, out
         return M_ZSTD, props, pyzstd.compress(data, level)
     if m == "Brotli":
         import brotli
